@@ -7,8 +7,9 @@
    queue table (Async classes with queued='model').  [getstate] / [setstate] mirror
    LockedMachine.__getstate__/__setstate__ (store keyed by the model objects, table rebuilt under
    the new ids), GraphMachine.__getstate__/__setstate__ (graphs dropped, regenerated) and the default
-   pickling of __dict__; [effective_hooks] says which pair the MRO of each of the 12 predefined
-   classes selects; PicklableLock is re-created unlocked ([transport_lock]).
+   pickling of __dict__; the two locked graph classes run both protocols (fix 74ef53e);
+   [effective_hooks] says which pair the MRO of each of the 12 predefined classes selects;
+   PicklableLock is re-created unlocked ([transport_lock]).
    ASSUMED, not proved: [transport rm rl] — what pickle does to the object graph (every reachable
    object re-created under the fresh identity rm i / rl l, sharing preserved, integers copied
    verbatim, configuration deep-copied).  snapshot = setstate o transport o getstate.
@@ -18,8 +19,10 @@
    queue.  The engine is abstract: theorems quantify over EVERY step function of the resolved
    machine, every history, every reachable table state, any number of models / contexts.
 
-   [guard] excludes exactly the three classes of inputs on which /repo does not re-key a table
-   (witnesses below = known findings KF-C15-1/2/3). *)
+   [guard] excludes exactly the one class of inputs on which /repo does not re-key a table: the
+   async classes with queued='model' (witness below = known finding KF-C15-3).  The former
+   KF-C15-1 (locked graph classes) and KF-C15-2 (unhashable models) are fixed in /repo (74ef53e,
+   3c0ca68); their witnesses are now positive examples. *)
 From Coq Require Import List Arith Bool.
 From M Require Import Pickle.
 From P Require Import PickleP.
@@ -29,7 +32,7 @@ Import ListNotations.
    (a proof by computation over the finite class table; the harness re-derives the right-hand
    side from /repo by reflection on every run). *)
 Theorem C15_hooks_table :
-  map (fun k => hooks_code (effective_hooks k)) the12 = [0; 1; 0; 1; 2; 2; 2; 2; 0; 2; 0; 2].
+  map (fun k => hooks_code (effective_hooks k)) the12 = [0; 1; 0; 1; 2; 3; 2; 3; 0; 2; 0; 2].
 Proof. exact hooks_table. Qed.
 Print Assumptions C15_hooks_table.
 
@@ -50,7 +53,7 @@ Print Assumptions C15_reachable_wf.
 Theorem C15_same :
   forall (C S G : Type) (render : C -> option S -> G) (rm rl : ident -> ident)
          (w w' : world S) (m m' : machine C G),
-  wf m = true -> fresh rm rl w m = true -> guard w m = true ->
+  wf m = true -> fresh rm rl w m = true -> guard m = true ->
   snapshot render rm rl w m = Some (w', m') ->
   resolve w' m' = normalize render (resolve w m).
 Proof. exact same_view. Qed.
@@ -62,7 +65,7 @@ Theorem C15_same_run :
   forall (C S G : Type) (render : C -> option S -> G) (E O : Type)
          (step : pview C S G -> E -> pview C S G * O)
          (rm rl : ident -> ident) (w w' : world S) (m m' : machine C G) (h : list E),
-  wf m = true -> fresh rm rl w m = true -> guard w m = true ->
+  wf m = true -> fresh rm rl w m = true -> guard m = true ->
   snapshot render rm rl w m = Some (w', m') ->
   run_view step (resolve w' m') h = run_view step (normalize render (resolve w m)) h.
 Proof. exact same_run. Qed.
@@ -74,21 +77,21 @@ Theorem C15_same_run_quiet :
   forall (C S G : Type) (render : C -> option S -> G) (E O : Type)
          (step : pview C S G -> E -> pview C S G * O)
          (rm rl : ident -> ident) (w w' : world S) (m m' : machine C G) (h : list E),
-  wf m = true -> fresh rm rl w m = true -> guard w m = true ->
+  wf m = true -> fresh rm rl w m = true -> guard m = true ->
   k_graph (m_cls m) = false -> quiet w m = true ->
   snapshot render rm rl w m = Some (w', m') ->
   run_view step (resolve w' m') h = run_view step (resolve w m) h.
 Proof. exact same_run_quiet. Qed.
 Print Assumptions C15_same_run_quiet.
 
-(* The re-keying itself.  Locked classes with LockedMachine's hooks: the context table of the copy
+(* The re-keying itself.  ALL locked classes (the graph ones included): the context table of the copy
    is keyed by exactly the identities of the copy's models, and under the new identity of a model
    are the copies of the contexts that the original held under the old one. *)
 Theorem C15_rekey_contexts :
   forall (C S G : Type) (render : C -> option S -> G) (rm rl : ident -> ident)
          (w w' : world S) (m m' : machine C G),
   wf m = true -> fresh rm rl w m = true ->
-  k_locked (m_cls m) = true -> k_graph (m_cls m) = false ->
+  k_locked (m_cls m) = true ->
   snapshot render rm rl w m = Some (w', m') ->
   m_models m' = map rm (m_models m) /\
   m_cmap m' = map (fun i => (rm i, map rl (lookup_list (m_cmap m) i))) (m_models m) /\
@@ -97,7 +100,15 @@ Theorem C15_rekey_contexts :
 Proof. exact rekey_contexts. Qed.
 Print Assumptions C15_rekey_contexts.
 
-(* Graph classes: the graph table of the copy is keyed by exactly the identities of the copy's
+(* Pickling never raises, whatever the class and whether or not the models are hashable. *)
+Theorem C15_pickles_always :
+  forall (C S G : Type) (render : C -> option S -> G) (rm rl : ident -> ident)
+         (w : world S) (m : machine C G),
+  exists w' m', snapshot render rm rl w m = Some (w', m').
+Proof. exact pickles_always. Qed.
+Print Assumptions C15_pickles_always.
+
+(* Graph classes (locked or not): the graph table of the copy is keyed by exactly the identities of the copy's
    models (stale entries of removed models are gone) and holds a freshly generated graph. *)
 Theorem C15_rekey_graphs :
   forall (C S G : Type) (render : C -> option S -> G) (rm rl : ident -> ident)
@@ -115,7 +126,7 @@ Print Assumptions C15_rekey_graphs.
 Theorem C15_locks_free :
   forall (C S G : Type) (render : C -> option S -> G) (rm rl : ident -> ident)
          (w w' : world S) (m m' : machine C G),
-  wf m = true -> fresh rm rl w m = true -> guard w m = true ->
+  wf m = true -> fresh rm rl w m = true -> guard m = true ->
   snapshot render rm rl w m = Some (w', m') ->
   view_locks_free (resolve w' m').
 Proof. exact locks_free. Qed.
@@ -183,7 +194,7 @@ Print Assumptions C15_hold_independent.
    is held, is in the envelope; the copy's table is keyed 110/111, its lock (100) is free while
    the original's (0) is still held. *)
 Example C15_envelope_inhabited :
-  wf xlocked = true /\ fresh (xplus 100) (xplus 100) xworld xlocked = true /\ guard xworld xlocked = true /\
+  wf xlocked = true /\ fresh (xplus 100) (xplus 100) xworld xlocked = true /\ guard xlocked = true /\
   exists w' m', snapshot xrender (xplus 100) (xplus 100) xworld xlocked = Some (w', m') /\
     m_models m' = [110; 111] /\
     m_cmap m' = [(110, [100; 101]); (111, [100; 101; 103])] /\
@@ -192,28 +203,33 @@ Example C15_envelope_inhabited :
 Proof. exact ex_locked_envelope. Qed.
 Print Assumptions C15_envelope_inhabited.
 
+(* Formerly KF-C15-1, fixed by 74ef53e: the same history on a LockedGraphMachine is inside the guard;
+   context and graph tables of the copy are keyed by the copy's models, every model finds its
+   contexts, and the copy resolves to the normalised original. *)
+Example C15_locked_graph_rekeyed :
+  wf xlockedgraph = true /\ fresh (xplus 100) (xplus 100) xworld xlockedgraph = true /\
+  guard xlockedgraph = true /\
+  exists w' m', snapshot xrender (xplus 100) (xplus 100) xworld xlockedgraph = Some (w', m') /\
+    m_models m' = [110; 111] /\ keys (m_cmap m') = [110; 111] /\ keys (m_graphs m') = [110; 111] /\
+    map (fun x => length (pm_ctx x)) (pv_models (resolve w' m')) = [2; 3] /\
+    resolve w' m' = normalize xrender (resolve xworld xlockedgraph).
+Proof. exact ex_locked_graph_rekeyed. Qed.
+Print Assumptions C15_locked_graph_rekeyed.
+
+(* Formerly KF-C15-2, fixed by 3c0ca68: a LockedMachine whose model is unhashable is inside the guard
+   and pickles; the copy resolves to the normalised original. *)
+Example C15_unhashable_pickles :
+  wf xunhashable = true /\ fresh (xplus 100) (xplus 100) xuworld xunhashable = true /\
+  guard xunhashable = true /\
+  map (fun i => option_map mo_hashable (lookup (w_models xuworld) i)) (m_models xunhashable) = [Some false] /\
+  exists w' m', snapshot xrender (xplus 100) (xplus 100) xuworld xunhashable = Some (w', m') /\
+    m_models m' = [110] /\ m_cmap m' = [(110, [100; 101])] /\
+    resolve w' m' = normalize xrender (resolve xuworld xunhashable).
+Proof. exact ex_unhashable_pickles. Qed.
+Print Assumptions C15_unhashable_pickles.
+
 (* Outside the guard the statement is false of the faithful model (= of /repo):
-   KF-C15-1  LockedGraphMachine / LockedHierarchicalGraphMachine inherit GraphMachine's hooks: the
-             context table keeps the OLD integer keys, an event on a model of the copy finds no contexts. *)
-Theorem C15_same_refuted_locked_graph :
-  exists (w : world nat) (m : machine nat (nat * option nat)) rm rl w' m',
-    wf m = true /\ fresh rm rl w m = true /\ snapshot xrender rm rl w m = Some (w', m') /\
-    m_models m' = [110; 111] /\ keys (m_cmap m') = [10; 11] /\
-    map pm_ctx (pv_models (resolve w' m')) = [[]; []] /\
-    map (fun x => length (pm_ctx x)) (pv_models (resolve w m)) = [2; 3] /\
-    resolve w' m' <> normalize xrender (resolve w m).
-Proof. exact ex_locked_graph_stale. Qed.
-Print Assumptions C15_same_refuted_locked_graph.
-
-(* KF-C15-2  a LockedMachine with an unhashable model cannot be pickled (the store is a dict keyed by the models). *)
-Theorem C15_same_refuted_unhashable :
-  exists (w : world nat) (m : machine nat (nat * option nat)) rm rl,
-    wf m = true /\ fresh rm rl w m = true /\ k_locked (m_cls m) = true /\ k_graph (m_cls m) = false /\
-    snapshot xrender rm rl w m = None.
-Proof. exact ex_unhashable. Qed.
-Print Assumptions C15_same_refuted_unhashable.
-
-(* KF-C15-3  AsyncMachine(queued='model'): no hook re-keys the per-model queue table; no model of the copy has a queue. *)
+   KF-C15-3  AsyncMachine(queued='model'): no hook re-keys the per-model queue table; no model of the copy has a queue. *)
 Theorem C15_same_refuted_async_queue :
   exists (w : world nat) (m : machine nat (nat * option nat)) rm rl w' m',
     wf m = true /\ fresh rm rl w m = true /\ snapshot xrender rm rl w m = Some (w', m') /\
